@@ -38,7 +38,16 @@ func runRounds(args []string) (map[string]any, error) {
 				continue
 			}
 			var h exec.RHist
-			if err := json.Unmarshal(line, &h); err != nil {
+			if bytes.Contains(line, []byte(`"aops"`)) {
+				// behaviour of MPTPersist.tla: abstract actions, translated to executor operations
+				var ab struct {
+					AOps []exec.AOp `json:"aops"`
+				}
+				if err := json.Unmarshal(line, &ab); err != nil {
+					return nil, err
+				}
+				h = exec.TranslatePersist(ab.AOps)
+			} else if err := json.Unmarshal(line, &h); err != nil {
 				return nil, err
 			}
 			tid++
